@@ -1275,6 +1275,440 @@ def env_search(ctx, shim, cases):
                          "environment, on the bare font every advance is the hmtx advance of its glyph; non-trivial = the hook "
                          "result contains a deleted glyph")
 
+# ------------------------------------------------------------------------------------------------
+# state-table subtables under RANGED user features: a subtable that is switched off for a stretch of the text is
+# skipped there, and the machine is back in the start-of-text state behind it (HarfBuzz StateTableDriver::drive).
+# Two generators share the segment / cluster / feature machinery:
+#   * pattern machines ("real-font-like": a trie of class patterns, the action at the end of a pattern) for the
+#     shape()-level oracle `whole text with the subtable off on some stretches == the pieces shaped separately`;
+#   * the file's random machines, with texts that walk the generated state table to a non-initial state, put the
+#     switched-off stretch there and go on with a glyph whose transition from that state differs from the one from
+#     state 0 — for the crate / model correspondence through the substitute hook.
+
+# OpenType tag -> (AAT feature type, selector that enables, selector that disables); Apple's font feature registry
+# as mapped by HarfBuzz (hb-aat-layout.cc feature_mappings)
+OFF_FEATS = [("liga", 1, 2, 3), ("dlig", 1, 4, 5), ("smcp", 37, 1, 0), ("ss01", 35, 2, 3), ("ss02", 35, 4, 5),
+             ("zero", 14, 4, 5), ("c2sc", 38, 1, 0)]
+GLOBAL_END = 0xFFFFFFFF
+
+
+def ranged_plumbing(r, sub, extra_subs=True):
+    """chain + feat rows in which subtable `sub` is governed by one OpenType feature.
+    Returns (chains, feat_rows, plumb) with plumb = dict(tag, default_on, distractor tag or None)."""
+    tag, ty, on, off = r.choice(OFF_FEATS)
+    F = r.choice([1, 2, 4, 8, 0x10, 0x8000])
+    G = r.choice([b for b in (0x20, 0x40, 0x100) if b != F])      # the bit of the always-on neighbours
+    default_on = r.chance(1, 2)
+    sub["flags"] = F if r.chance(3, 4) else F | 0x20000
+    feats = [(ty, on, F, 0xFFFFFFFF), (ty, off, 0, 0xFFFFFFFF ^ F)]
+    others = [t for t in OFF_FEATS if t[1] != ty]
+    dis = r.choice(others) if r.chance(1, 2) else None
+    if dis is not None and r.chance(1, 2):
+        feats.append((dis[1], dis[2], 0x1000, 0xFFFFFFFF))       # a feature entry that moves an unrelated bit
+    feats = r.shuffle(feats)
+    subs = [sub]
+    if extra_subs and r.chance(1, 3):
+        nc = {"kind": 4, "coverage": 0x20, "flags": G, "lookup": identity_lookup(r, rand_subst(r, True))}
+        subs = [nc, sub] if r.chance(1, 2) else [sub, nc]
+    chains = [{"default": (F if default_on else 0) | G | r.choice([0, 0, 0x40000]), "features": feats, "subtables": subs}]
+    types = {ty} | ({dis[1]} if dis is not None else set()) | {t for t in FEAT_TYPES if r.chance(1, 4)}
+    rows = [(t, r.choice([1, 2, 4]), r.chance(1, 2)) for t in sorted(types)]
+    return chains, rows, {"tag": tag, "default_on": default_on, "distractor": dis[0] if dis is not None else None}
+
+
+def font_of(r, chains, rows):
+    morx, tok = build_morx(r, chains, NG)
+    font = build_font(NG, morx, build_feat(rows))
+    ftok = [NG, 1, len(rows)]
+    for ty, ns, ex in rows:
+        ftok += [ty, ns, 1 if ex else 0]
+    return font.hex(), " ".join(map(str, ftok + tok))
+
+
+def segment_clusters(r, segs):
+    """cluster values for the glyphs of `segs` (list of glyph lists): non-decreasing, repeated only inside a segment"""
+    c = r.below(3)
+    out = []
+    for sg in segs:
+        cs = []
+        for i, _ in enumerate(sg):
+            if i > 0: c += r.choice([0, 1, 1, 1, 2]) if r.chance(1, 3) else 1
+            cs.append(c)
+        out.append(cs)
+        c += r.choice([1, 1, 1, 2, 4])
+    return out
+
+
+def segment_features(r, cls, on, plumb, n_all):
+    """user features that switch the subtable on exactly on the segments with on[i] (cluster ranges; the boundaries are
+    drawn anywhere in the gap between two segments), plus at most one ranged feature of an unrelated type"""
+    tag = tag_hex(plumb["tag"])
+    bounds = []
+    for i, cs in enumerate(cls):
+        lo = 0 if i == 0 else r.range(cls[i - 1][-1] + 1, cs[0])
+        bounds.append(lo)
+    fs = []
+    for i, cs in enumerate(cls):
+        s = bounds[i]
+        e = bounds[i + 1] if i + 1 < len(cls) else (GLOBAL_END if r.chance(2, 3) else cs[-1] + 1 + r.below(3))
+        if plumb["default_on"] and not on[i]: fs.append(f"{tag}:0:{s}:{e}")
+        if not plumb["default_on"] and on[i]: fs.append(f"{tag}:{r.choice([1, 1, 2])}:{s}:{e}")
+    fs = r.shuffle(fs)
+    if plumb["distractor"] is not None and r.chance(2, 3):
+        a = r.below(n_all + 2); b = a + r.range(1, 4)
+        fs.insert(r.below(len(fs) + 1), f"{tag_hex(plumb['distractor'])}:{r.choice([0, 1])}:{a}:{b if r.chance(2, 3) else GLOBAL_END}")
+    return ",".join(fs) or "-"
+
+
+def piece_features(plumb, on, whole):
+    """the features for one piece shaped on its own: the governing feature global (or absent), the distractor as it was"""
+    tag = tag_hex(plumb["tag"])
+    keep = [f for f in ([] if whole == "-" else whole.split(",")) if not f.startswith(tag + ":")]
+    if plumb["default_on"] and not on: keep.append(f"{tag}:0:0:{GLOBAL_END}")
+    if not plumb["default_on"] and on: keep.append(f"{tag}:1:0:{GLOBAL_END}")
+    return ",".join(keep) or "-"
+
+
+def alternate(r, n):
+    first = r.chance(1, 2)
+    return [first if i % 2 == 0 else not first for i in range(n)]
+
+
+# -- pattern machines ----------------------------------------------------------------------------
+
+def pattern_subtable(r, kind):
+    """A well-formed state table of the usual shape of real fonts: patterns over glyph classes, one trie node per matched
+    prefix, the action on the last glyph of a pattern, a mismatch falls back to the root (or to the node of the class if it
+    starts a pattern). By construction no action refers to a register (mark, marked range, component stack) that was not set
+    since the machine last left the start state, and nothing happens at end of text."""
+    nreal = r.range(2, 4)
+    ncls = 4 + nreal
+    real = list(range(4, ncls))
+    classes = {}
+    gl = r.shuffle(list(range(1, NG)))
+    for i, c in enumerate(real):                      # every class has a glyph, most have two or three
+        classes[gl[i]] = c
+    for g in gl[nreal:]:
+        if r.chance(2, 3): classes[g] = r.choice(real)
+    pats = set()
+    for _ in range(r.range(1, 3)):
+        pats.add(tuple(r.choice(real) for _ in range(r.range(2, 4))))
+    pats = [p for p in sorted(pats) if not any(q != p and q[:len(p)] == p for q in pats)]
+    pats = [p for p in pats if not any(q != p and p[:len(q)] == q for q in pats)] or pats[:1]
+    nodes = {(): 0}
+    inner = sorted({p[:k] for p in pats for k in range(1, len(p))})
+    use1 = r.chance(1, 2)                              # state 1 (start of line) as an ordinary trie node, or a copy of row 0
+    ids = r.shuffle(list(range(1 if use1 else 2, (1 if use1 else 2) + len(inner))))
+    for p, i in zip(inner, ids): nodes[p] = i
+    nstates = max(2, max(nodes.values()) + 1)
+    transparent_oob = r.chance(1, 3)
+    arrays, extra = {}, {}
+    if kind == 1:
+        lks = []
+        for _ in range(r.range(1, 3)):
+            sub = {g: ((g + r.range(0, NG - 3)) % (NG - 1)) + 1 for g in range(1, NG)}     # every glyph changes
+            lks.append(identity_lookup(r, sub) if r.chance(1, 2) else build_lookup(sub, r.choice([2, 6]), NG, term=r.chance(1, 2)))
+        arrays["lookups"] = lks
+    elif kind == 2:
+        arrays["components"] = [r.below(2) for _ in range(NG + 8)]
+        arrays["ligatures"] = [r.range(1, NG - 1) for _ in range(16)]
+        arrays["actions"] = []
+    elif kind == 5:
+        arrays["glyphs"] = [r.range(1, NG - 1) for _ in range(r.range(4, 8))]
+    entries = []
+
+    def ent(e):
+        if e not in entries: entries.append(e)
+        return entries.index(e)
+
+    NOOP = (0, 0, 0xFFFF if kind in (1, 5) else 0, 0xFFFF if kind in (1, 5) else 0)
+    finals = {}
+
+    def final(p):
+        if p in finals: return finals[p]
+        k = len(p)
+        if kind == 0:
+            e = (0, 0x2000 | r.range(1, 15), 0, 0)
+        elif kind == 1:
+            n = len(arrays["lookups"])
+            mi = r.below(n) if r.chance(2, 3) else 0xFFFF
+            ci = r.below(n) if mi == 0xFFFF or r.chance(1, 2) else 0xFFFF
+            e = (0, 0, mi, ci)
+        elif kind == 2:
+            start = len(arrays["actions"])
+            for j in range(k):
+                a = r.below(8)
+                if j == k - 1: a |= 0x80000000 | (0x40000000 if r.chance(1, 2) else 0)
+                elif r.chance(1, 5): a |= 0x40000000
+                arrays["actions"].append(a)
+            e = (0, 0x8000 | 0x2000, start, 0)
+        else:
+            n = len(arrays["glyphs"])
+            cc = r.range(1, 2) if r.chance(2, 3) else 0
+            mc = r.range(1, 2) if cc == 0 or r.chance(1, 2) else 0
+            fl = (0x0800 if r.chance(1, 2) else 0) | (0x0400 if r.chance(1, 2) else 0) | (cc << 5) | mc
+            e = (0, fl, r.below(n - cc + 1) if cc else 0xFFFF, r.below(n - mc + 1) if mc else 0xFFFF)
+        finals[p] = e
+        return e
+
+    def step(q):
+        first = len(q) == 1
+        if kind == 0: return (nodes[q], 0x8000 if first else 0, 0, 0)
+        if kind == 1: return (nodes[q], 0x8000 if first else 0, 0xFFFF, 0xFFFF)
+        if kind == 2: return (nodes[q], 0x8000, 0, 0)
+        return (nodes[q], 0x8000 if first else 0, 0xFFFF, 0xFFFF)
+
+    rows = {}
+    for p, sidx in nodes.items():
+        row = []
+        for c in range(ncls):
+            if c < 4:
+                row.append(ent((sidx, 0, NOOP[2], NOOP[3])) if (c == 1 and transparent_oob and p) else ent(NOOP))
+                continue
+            q = p + (c,)
+            if q in pats: row.append(ent(final(q)))
+            elif q in nodes: row.append(ent(step(q)))
+            elif (c,) in nodes: row.append(ent(step((c,))))
+            else: row.append(ent(NOOP))
+        rows[sidx] = row
+    states = [rows.get(i, rows[0]) for i in range(nstates)]
+    mach = {"nclasses": ncls, "classes": classes, "states": states, "entries": entries}
+    st = {"kind": kind, "coverage": 0x20 | (0x40 if r.chance(1, 3) else 0) | (0x10 if r.chance(1, 3) else 0)
+          | (0x80 if r.chance(1, 4) else 0), "flags": 1, "mach": mach, "arrays": arrays}
+    if r.chance(1, 6): st["coverage"] &= ~0x20
+    st["built"] = build_stx(r, kind, mach, NG, arrays)
+    by_class = {c: [g for g, k in classes.items() if k == c] for c in real}
+    oob = [g for g in range(1, NG) if g not in classes]
+    return st, {"patterns": pats, "by_class": by_class, "oob": oob, "transparent_oob": transparent_oob}
+
+
+def mach_next(mach, state, g):
+    """(entry index, new state) of the transition on glyph g, as the parser reads the arrays; None outside them"""
+    ncls = mach["nclasses"]
+    cls = mach["classes"].get(g, 1)
+    if cls >= ncls: cls = 1
+    if ncls == 0 or state >= len(mach["states"]) or cls >= len(mach["states"][state]): return None
+    ei = mach["states"][state][cls]
+    if ei >= len(mach["entries"]): return None
+    return ei, mach["entries"][ei][0]
+
+
+def mach_state_after(mach, glyphs):
+    """state after the glyphs (transitions only: exact for tables without DONT_ADVANCE, a guide otherwise)"""
+    s = 0
+    for g in glyphs:
+        t = mach_next(mach, s, g)
+        s = t[1] if t is not None else 0
+    return s
+
+
+def walk_text(r, mach, pool):
+    """prefix that leaves the machine in a non-initial state if there is one, and a glyph that behaves differently there"""
+    state, pre = 0, []
+    for _ in range(r.range(1, 4)):
+        opts = [(g, mach_next(mach, state, g)) for g in pool]
+        good = [g for g, t in opts if t is not None and t[1] != 0]
+        g = r.choice(good) if good and r.chance(7, 8) else r.choice(pool)
+        t = mach_next(mach, state, g)
+        pre.append(g)
+        state = t[1] if t is not None else 0
+    diff = [g for g in pool if mach_next(mach, state, g) != mach_next(mach, 0, g)]
+    nxt = r.choice(diff) if diff and r.chance(7, 8) else r.choice(pool)
+    return pre, state, nxt
+
+
+def pattern_segments(r, info):
+    """glyph segments and their on/off pattern: mostly a pattern of the machine cut by a switched-off stretch"""
+    pool = list(range(1, NG))
+    inst = lambda p: [r.choice(info["by_class"][c]) for c in p]
+    fill = lambda a, b: [r.choice(pool) for _ in range(r.range(a, b))]
+    k = r.below(8)
+    if k <= 4:
+        p = r.choice(info["patterns"])
+        j = r.range(1, len(p) - 1)
+        gl = inst(p)
+        gap = [r.choice(gl + pool) for _ in range(r.range(1, 3))]
+        pre = (inst(r.choice(info["patterns"])) if r.chance(1, 3) else fill(0, 2)) + gl[:j]
+        suf = gl[j:] + (inst(r.choice(info["patterns"])) if r.chance(1, 3) else fill(0, 2))
+        segs, on = [pre, gap, suf], [True, False, True]
+        if r.chance(1, 4):
+            segs.append(fill(1, 2)); on.append(False)
+        if r.chance(1, 4):
+            segs.insert(0, fill(1, 2)); on.insert(0, False)
+        return segs, on
+    if k <= 6:
+        n = r.range(2, 4)
+        segs = []
+        for _ in range(n):
+            segs.append(inst(r.choice(info["patterns"])) if r.chance(1, 2) else
+                        inst(r.choice(info["patterns"]))[:r.range(1, 2)] + fill(0, 1))
+        return segs, alternate(r, n)
+    n = r.range(2, 4)
+    small = r.sample(pool, 3)
+    return [[r.choice(small) for _ in range(r.range(1, 3))] for _ in range(n)], alternate(r, n)
+
+
+def offrange_cases(r, nfonts, per_font=5):
+    """shape()-level cases on pattern machines: (whole request, [piece requests], meta)"""
+    cases = []
+    for it in range(nfonts):
+        kind = [2, 1, 0, 5, 2, 1][it % 6]
+        st, info = pattern_subtable(r, kind)
+        chains, rows, plumb = ranged_plumbing(r, st)
+        hexf, rec = font_of(r, chains, rows)
+        mach = st["mach"]
+        for _ in range(per_font):
+            segs, on = pattern_segments(r, info)
+            cls = segment_clusters(r, segs)
+            d = r.choice(["l", "l", "r", "r", "t"])
+            level = r.choice([0, 0, 1, 2])
+            fs = segment_features(r, cls, on, plumb, sum(map(len, segs)))
+            txt = lambda gs, cs: ",".join(f"{0xE000 + g - 1:x}:{c}" for g, c in zip(gs, cs))
+            whole = f"morx shape {hexf} R 0 I {d} {level} {fs} " + txt(sum(segs, []), sum(cls, []))
+            pieces = [f"morx shape {hexf} R 0 I {d} {level} {piece_features(plumb, o, fs)} " + txt(sg, cs)
+                      for sg, cs, o in zip(segs, cls, on)]
+            # what the machine was doing when a switched-off stretch began (processing order = text order unless reversed;
+            # the figure is for the distribution only)
+            mid = []
+            for i in range(1, len(segs)):
+                if on[i - 1] and not on[i] and any(on[i + 1:]):
+                    mid.append(mach_state_after(mach, segs[i - 1]))
+            hook = None
+            if kind != 5:
+                hg = ",".join(f"{g}:{c}" for g, c in zip(sum(segs, []), sum(cls, [])))
+                hook = f"morx run {hexf} R {rec} I {d} {level} - - {fs} {hg}"
+            cases.append((whole, pieces, {"kind": KIND_NAMES[kind], "segments": segs, "clusters": cls, "on": on, "dir": d,
+                                          "level": level, "features": fs, "tag": plumb["tag"],
+                                          "default_on": plumb["default_on"], "states_at_off": mid, "hook": hook}))
+    return cases
+
+
+def offrange_expected(m, piece_outs):
+    """the pieces in the order shape() returns the text (right-to-left text comes back reversed)"""
+    outs = [pairs_of(o.split()[1]) for o in piece_outs]
+    if m["dir"] == "r": outs = outs[::-1]
+    return [p for o in outs for p in o]
+
+
+def offrange_agree(m, got, want, piece_outs):
+    """(agree, glyph-ids-only). At cluster level 2 a ligature leaves its deleted components with their own cluster values, and
+    the purge at the end of shape() (hb_aat_layout_remove_deleted_glyphs, level-independent, see C17_purge) merges such a
+    value into the neighbour in buffer order - which may be the last glyph of the neighbouring stretch: when a stretch lost
+    glyphs at level 2 only the glyph ids are compared."""
+    shrank = any(len(pairs_of(o.split()[1])) < len(sg) for o, sg in zip(piece_outs, m["segments"]))
+    if m["level"] == 2 and shrank:
+        return [g for g, _ in got] == [g for g, _ in want], True
+    return got == want, False
+
+
+def offrange_search(ctx, shim, cases):
+    """oracle on the crate alone, through the public shape(): on a font whose state-table subtable is governed by one
+    OpenType feature, shaping a text with the subtable switched off on some cluster ranges gives the same glyphs and
+    clusters as shaping every maximal switched-on / switched-off stretch as a text of its own (feature global) and
+    concatenating — the machine is skipped on the switched-off glyphs and starts afresh behind them."""
+    reqs = [c[0] for c in cases]
+    flat = [p for c in cases for p in c[1]]
+    a = vlib.run_lines(shim, reqs, timeout=300)
+    pb = dict(zip(flat, vlib.run_lines(shim, flat, timeout=300)))
+    total = nontriv = 0
+    dist = {}
+    found = {}
+    for (ln, pieces, m), x in zip(cases, a):
+        total += 1
+        po = [pb[p] for p in pieces]
+        kn = m["kind"]
+        if not x.startswith("ok") or not all(o.startswith("ok") for o in po):
+            if x.startswith("ok") != all(o.startswith("ok") for o in po):
+                found.setdefault((kn, "crash"), []).append((len(ln), ln, pieces, m, x, po, None))
+            continue
+        got = pairs_of(x.split()[1])
+        want = offrange_expected(m, po)
+        plain = [(g, c) for sg, cs in zip(m["segments"], m["clusters"]) for g, c in zip(sg, cs)]
+        if m["dir"] == "r": plain = plain[::-1]
+        mids = [s for s in m["states_at_off"] if s != 0]
+        if mids:
+            nontriv += 1
+            dist[kn + ":off-range-in-non-initial-state"] = dist.get(kn + ":off-range-in-non-initial-state", 0) + 1
+        if want != plain: dist[kn + ":pieces-changed"] = dist.get(kn + ":pieces-changed", 0) + 1
+        dist["dir:" + m["dir"]] = dist.get("dir:" + m["dir"], 0) + 1
+        dist["segments:%d" % len(m["segments"])] = dist.get("segments:%d" % len(m["segments"]), 0) + 1
+        dist["default-on" if m["default_on"] else "default-off"] = dist.get("default-on" if m["default_on"] else "default-off", 0) + 1
+        agree, ids_only = offrange_agree(m, got, want, po)
+        if ids_only: dist["level-2-purge:glyph-ids-only"] = dist.get("level-2-purge:glyph-ids-only", 0) + 1
+        if not agree:
+            n = sum(map(len, m["segments"]))
+            found.setdefault((kn, "differs"), []).append((n * 1000 + len(m["features"]), ln, pieces, m, x, po, want))
+    for (kn, key), lst in sorted(found.items()):
+        lst.sort(key=lambda t: t[0])
+        _, ln, pieces, m, x, po, want = lst[0]
+        offs = [[cs[0], cs[-1]] for cs, o in zip(m["clusters"], m["on"]) if not o]
+        ctx.violation(f"{kn} subtable governed by `{m['tag']}`, switched off on the clusters {offs}: shape() of glyphs {m['segments']} "
+                      f"clusters {m['clusters']} dir {m['dir']} level {m['level']} features {m['features']} gives {x[:160]}, the "
+                      f"switched-on / switched-off stretches shaped on their own give {want} ({len(lst)} requests)",
+                      {"stage": "search", "stream": "morx-offrange", "class": key, "kind": kn, "request": ln, "piece_requests": pieces,
+                       "segments": m["segments"], "clusters": m["clusters"], "on": m["on"], "dir": m["dir"], "level": m["level"],
+                       "features": m["features"], "expected": [list(p) for p in want] if want is not None else None,
+                       "observed": x[:400], "pieces_observed": [o[:200] for o in po], "count": len(lst)})
+    ctx.note_search("morx-offrange", total, nontriv, distribution=dist,
+                    violations_by_class={f"{k[0]}:{k[1]}": len(v) for k, v in found.items()},
+                    rule="pattern machines (trie of 1-3 class patterns of length 2-4, action on the last glyph, ligature / contextual / "
+                         "rearrangement / insertion in turn; state 1 an ordinary node in half of the fonts; out-of-bounds glyphs "
+                         "transparent in a third) in a chain where one OpenType feature (liga, dlig, smcp, ss01, ss02, zero, c2sc) "
+                         "switches the subtable, default on or default off, with feat; texts of 2-5 stretches alternately on / off, "
+                         "mostly a pattern cut by a switched-off stretch; clusters ascending with gaps and repeats, range "
+                         "boundaries anywhere in the gaps, an unrelated ranged feature in a third; LTR / RTL / TTB, 3 levels; oracle: "
+                         "glyphs and clusters of shape() == concatenation of the stretches shaped on their own; non-trivial = a "
+                         "switched-off stretch that is followed by a switched-on one began while the machine was in a non-initial state")
+
+
+def offrange_run_lines(r, n, pattern_cases):
+    """`morx run` requests (hook, crate vs model): the pattern-machine cases above (no insertion) and the file's random
+    machines - all four state-table types, well-formed or not - in a chain where one feature governs the subtable, with
+    texts that walk the state table to a non-initial state, switch the subtable off there and on again."""
+    lines = [c[2]["hook"] for c in pattern_cases if c[2]["hook"] is not None][:n // 3]
+    pool = list(range(1, NG))
+    while len(lines) < n:
+        kind = r.choice([0, 1, 2, 5])
+        st = rand_subtable(r, (kind,), wf=r.chance(2, 3))
+        if r.chance(2, 3): st["coverage"] |= 0x20
+        chains, rows, plumb = ranged_plumbing(r, st)
+        hexf, rec = font_of(r, chains, rows)
+        mach = st["mach"]
+        for _ in range(5):
+            pre, state, nxt = walk_text(r, mach, pool)
+            lead = [r.choice(pool) for _ in range(r.below(2))]
+            gap = [r.choice(pool + [nxt]) for _ in range(r.range(1, 3))]
+            suf = [nxt] + [r.choice(pool) for _ in range(r.below(3))]
+            segs, on = [lead + pre, gap, suf], [True, False, True]
+            if r.chance(1, 5):
+                segs.append([r.choice(pool)]); on.append(False)
+            if r.chance(1, 8):
+                n2 = r.range(2, 4)
+                segs, on = [[r.choice(pool) for _ in range(r.range(1, 3))] for _ in range(n2)], alternate(r, n2)
+            cls = segment_clusters(r, segs)
+            fs = segment_features(r, cls, on, plumb, sum(map(len, segs)))
+            d = r.choice(["l", "l", "r", "t", "b"])
+            level = r.choice([0, 0, 1, 2])
+            mo = str(r.choice([0, 1, 2, 3, 5, 8, 13, 40, 100, 300, -3])) if kind == 5 else \
+                ("-" if r.chance(2, 3) else str(r.choice([0, 1, 2, 3, 5, 8, 13, 40, -3])))
+            gl, cl = sum(segs, []), sum(cls, [])
+            if d in "rb" and r.chance(1, 2): gl, cl = gl[::-1], cl[::-1]       # the buffer as shape() hands it over
+            hg = ",".join(f"{g}:{c}" for g, c in zip(gl, cl))
+            lines.append(f"morx run {hexf} R {rec} I {d} {level} {mo} - {fs} {hg}")
+    return lines[:n]
+
+
+def classify_offrange(ln, out):
+    ks = classify_run(ln, out)
+    if out.startswith("ok"):
+        o = out.split()
+        fl = o[5].split(";")[0].split(",")
+        vals = {f.split("/")[0] for f in fl}
+        if len(vals) > 1: ks.append("flags-vary-over-ranges")
+    return ks
+
+
+
 def run(ctx):
     ctx.assumptions += [
         "theorems are about the Lean model RbModel/Morx.lean; it is tied to the crate by the correspondence "
@@ -1307,7 +1741,12 @@ def run(ctx):
     # cannot lower - the model's insertion loop takes minutes on tables that spend the budget, see run_lines)
     ctx.correspond("morx-shape-env", lines=[c[0] for c in envc if not c[2]["insertion"]], classify=classify_env,
                    canon=canon_env, timeout=300)
+    # 5. state-table subtables under ranged features: switched off in the middle of the text, on again behind it
+    offc = offrange_cases(ctx.rng("offrange"), ctx.budget(240, 6000))
+    ctx.correspond("morx-run-offrange", lines=offrange_run_lines(ctx.rng("run-offrange"), ctx.budget(1500, 60000), offc),
+                   classify=classify_offrange, canon=canon, timeout=300)
     # search
+    offrange_search(ctx, shim, offc)
     purge_search(ctx, shim, pl)
     env_search(ctx, shim, envc)
     seed_search(ctx, shim, model)
@@ -1359,6 +1798,17 @@ def replay(ctx, rp):
         if not a.startswith("ok"): return 1
         g = [x for x, _ in pairs_of(a.split()[1])]
         return 0 if DELETED not in g and (rp.get("expected") is None or g == rp["expected"]) else 1
+    if st == "morx-offrange":
+        a = vlib.run_lines(shim, [rp["request"]], nproc=1)[0]
+        po = vlib.run_lines(shim, rp["piece_requests"], nproc=1)
+        print("segments", rp.get("segments"), "clusters", rp.get("clusters"), "on", rp.get("on"), "dir", rp.get("dir"),
+              "level", rp.get("level"), "features", rp.get("features"))
+        print("shape() of the whole text:", a[:300])
+        for sg, o in zip(rp.get("segments", []), po): print("  stretch", sg, "on its own:", o[:200])
+        if not a.startswith("ok") or not all(o.startswith("ok") for o in po): return 1
+        want = offrange_expected(rp, po)
+        print("expected:", want)
+        return 0 if offrange_agree(rp, pairs_of(a.split()[1]), want, po)[0] else 1
     if st in ("morx-d17", "morx-shape-vs-hook"):
         a = vlib.run_lines(shim, [rp["request"]], nproc=1)[0]
         print("shape():", a[:300], "expected", rp.get("expected"))
